@@ -542,6 +542,11 @@ func runCheck(prop, tier string, only, casesOverride, budgetOverride int) int {
 		seed := deathSeed[i]
 		job := Job{Mode: "run", Prop: prop, Tier: tier, Seed: seed, Worker: 0, Workers: 1, From: ci, To: ci + 1, Only: ci, Known: knownSigs}
 		r := runWorker(bi.Bin, job, extraEnv, 180*time.Second)
+		for try := 0; try < 4 && !r.died; try++ {
+			// a death that depends on how goroutines of a changed gopatch happen to
+			// interleave may need more than one attempt
+			r = runWorker(bi.Bin, job, extraEnv, 180*time.Second)
+		}
 		if !r.died {
 			fatal2("worker death at case %d did not reproduce in a fresh process:\n%s", ci, d)
 		}
@@ -617,7 +622,7 @@ func runCheck(prop, tier string, only, casesOverride, budgetOverride int) int {
 			confirmed = err == nil && idx >= 0
 		} else if rp.Violation.Oracle != "process-death" {
 			confirmed = false
-			for try := 0; try < 3 && !confirmed; try++ {
+			for try := 0; try < 8 && !confirmed; try++ {
 				for _, pl := range pools {
 					rr := runWorker(pl.bin, Job{Mode: "replay", Replay: path, Only: -1}, pl.env, 180*time.Second)
 					if rr.done != nil && rr.done.Repro {
